@@ -58,6 +58,7 @@ def check(run, project):
     f6(run, project)
     f9(run, project)
     f8(run, project)
+    f11(run, project)
     from .shared import unbound_locals
     unbound_locals(run, project, "F10", (HEX, SWTPM, PCAP, AUTO), what="the front-end fails instead of decoding the carried bytes")
     from .shared import undefined_names
@@ -242,6 +243,8 @@ def f3(run, project):
                     m = isinstance(nv, ast.BinOp) and isinstance(nv.op, ast.Add) and norm(nv.left) == v and byte_name(nv.right) is not None
                     if m and valid_on(p, byte_name(nv.right)):
                         continue
+                    if byte_name(nv) is not None and byte_name(nv) != v and valid_on(p, byte_name(nv)):
+                        continue   # the state is replaced by a byte that was validated on this step
                     return False
                 # the state starts empty (assigned before the loop)
                 pre = [e for p, d in allp if d == 0 for k, e, _ in p.effects if False]
@@ -469,6 +472,56 @@ def f5(run, project, L):
 
 
 # ------------------------------------------------------------------------------ F6
+def swtpm_table_form(mod):
+    """is the swtpm scanner in the form F6's transition table is stated over: one `while` loop, a `state` variable set to
+    constants, `marker` and `value` accumulators"""
+    fn = mod.function("parse_hex_string")
+    loops = [s_ for s_ in fn.body if isinstance(s_, ast.While)]
+    assigned = {norm(t_) for a_ in ast.walk(fn) if isinstance(a_, (ast.Assign, ast.AugAssign)) for t_ in (a_.targets if isinstance(a_, ast.Assign) else [a_.target])}
+    return len(loops) == 1 and {"state", "marker", "value"} <= assigned
+
+
+def f11(run, project):
+    """a pull with a default (`next(it, D)`) answers D at the end of the input: a character obtained that way may reach
+    `int(..., 16)` only on paths that have excluded D - otherwise text that ends inside a digit pair is decoded to a byte of
+    its own (or the conversion fails) instead of being rejected; both text scanners, whatever their form"""
+    n = 0
+    for modname in (HEX, SWTPM):
+        mod = project.module(modname)
+        for q, fn in mod.functions().items():
+            if not any(isinstance(c, ast.Call) and call_name(c) == "next" and len(c.args) == 2 for c in walk_no_nested(fn)):
+                continue
+            S = paths.Summariser(mod, fn)
+
+            def visit(p, outer):
+                nonlocal n
+                conds = outer + [(a, v) for a, v, _ in p.cond]
+                binds = {}
+                for k, e, _n in p.effects:
+                    if k in ("bind", "assign") and isinstance(e, ast.Assign) and isinstance(e.value, ast.Call) and call_name(e.value) == "next" \
+                            and len(e.value.args) == 2 and isinstance(e.targets[0], ast.Name):
+                        binds[e.targets[0].id] = e.value.args[1]
+                for k, e, node in p.effects:
+                    if k == "yield" and isinstance(e, ast.Call) and call_name(e) == "int" and len(e.args) == 2:
+                        for v in {x.id for x in ast.walk(e.args[0]) if isinstance(x, ast.Name)} & set(binds):
+                            d = norm(binds[v])
+                            c = dict(conds)
+                            ok = c.get(f"truthy {v}") is True or c.get(f"{v} == {d}") is False or c.get(f"{v} is {d}") is False \
+                                or c.get(f"len({v}) == 0") is False or c.get(f"{v} in ({d},)") is False
+                            n += 1
+                            run.ob("F11", ok, f"{modname.split('.')[-2]}.{q}: `{v}` is not the end-of-input default where it is converted",
+                                   f"`{v}` comes from `next(..., {d})` and reaches `{paths.text(e)}` on a path that has not excluded the "
+                                   f"default {d} (conditions: {[(a, t) for a, t in conds if v in a]}): text that ends inside a digit pair is "
+                                   "decoded (or the conversion fails) instead of being rejected with ValueError", module=mod, node=node or fn,
+                                   func=q, construct=f"end-of-input default of {v}")
+                for lp_ in p.loops.values():
+                    for sub in lp_:
+                        visit(sub, conds)
+            for p in S.paths():
+                visit(p, [])
+    run.ob("F11", True, f"every end-of-input default is excluded before a hex conversion ({n} conversions of defaulted pulls)")
+
+
 def f6(run, project):
     mod = project.module(SWTPM)
     consts = module_consts(mod)
@@ -477,11 +530,12 @@ def f6(run, project):
         run.ob("F6", consts.get(k) == v, f"{k} = {v!r} (documented swtpm log layout)", f"{k} is {consts.get(k)!r}", module=mod,
                node=mod.tree, func="<module>", construct=f"{k} constant")
     fn = mod.function("parse_hex_string")
+    if not swtpm_table_form(mod):
+        run.info("F6/F7: the swtpm scanner is not one `while` loop over a state variable with the marker / value accumulators the "
+                 "transition table is stated over; the table is not applied to this form (comparing automata up to their state "
+                 "representation would be model checking - DESIGN section 7); F1-F3, F10, F11 and C10-T2/T6 still apply")
+        return
     loops = [s_ for s_ in fn.body if isinstance(s_, ast.While)]
-    if len(loops) != 1:
-        raise AnalysisError("F6: the swtpm scanner is no longer one `while` loop over a state variable with the marker / value "
-                            "accumulators the transition table is stated over (a rewrite of the scanner's state representation is "
-                            "not recognised: the documented automaton cannot be compared)")
     lp = loops[0]
     # the scanner's states: whatever distinct constants `state` is set to / compared with - module-level ints, members of an
     # Enum ... (they are told apart below by their place in the automaton, not by their names)
@@ -681,6 +735,8 @@ def f7(run, project):
                            module=smod, node=n_, func=sfn.name, construct=f"truthiness of {o.id}")
     # swtpm: the low-nibble state at end of input raises - part of the transition table checked by F6
     sm = project.module(SWTPM)
+    if not swtpm_table_form(sm):
+        return
     sf = sm.function("parse_hex_string")
     S = paths.Summariser(sm, sf)
     ok = False
